@@ -292,36 +292,56 @@ impl<'a> Reader<'a> {
         Ok(())
     }
 
-    fn read_file(&mut self) -> anyhow::Result<()> {
-        self.read_signature()?;
+    /// Returns the length of the valid prefix of the file.  A crash while
+    /// appending can leave a partial record (or partial signature) at the end;
+    /// that tail is ignored here and truncated away by open().
+    fn read_file(&mut self) -> anyhow::Result<u64> {
+        use std::io::Seek;
+        let eof = |err: &std::io::Error| err.kind() == std::io::ErrorKind::UnexpectedEof;
+        if let Err(err) = self.read_signature() {
+            return match err.downcast_ref::<std::io::Error>() {
+                Some(io) if eof(io) => Ok(0),
+                _ => Err(err),
+            };
+        }
+        let mut valid_len = self.r.stream_position()?;
         loop {
             let mut len = match self.read_u16() {
                 Ok(r) => r,
-                Err(err) if err.kind() == std::io::ErrorKind::UnexpectedEof => break,
+                Err(err) if eof(&err) => break,
                 Err(err) => bail!(err),
             };
             let mask = 0b1000_0000_0000_0000;
-            if len & mask == 0 {
-                self.read_path(len as usize)?;
+            let record = if len & mask == 0 {
+                self.read_path(len as usize)
             } else {
                 len &= !mask;
-                self.read_build(len as usize)?;
+                self.read_build(len as usize)
+            };
+            match record {
+                Ok(()) => valid_len = self.r.stream_position()?,
+                Err(err) if eof(&err) => break,
+                Err(err) => bail!(err),
             }
         }
-        Ok(())
+        Ok(valid_len)
     }
 
     /// Reads an on-disk database, loading its state into the provided Graph/Hashes.
-    fn read(f: &mut File, graph: &mut Graph, hashes: &mut Hashes) -> anyhow::Result<IdMap> {
+    fn read(
+        f: &mut File,
+        graph: &mut Graph,
+        hashes: &mut Hashes,
+    ) -> anyhow::Result<(IdMap, u64)> {
         let mut r = Reader {
             r: std::io::BufReader::new(f),
             ids: IdMap::default(),
             graph,
             hashes,
         };
-        r.read_file()?;
+        let valid_len = r.read_file()?;
 
-        Ok(r.ids)
+        Ok((r.ids, valid_len))
     }
 }
 
@@ -333,8 +353,15 @@ pub fn open(path: &Path, graph: &mut Graph, hashes: &mut Hashes) -> anyhow::Resu
         .open(path)
     {
         Ok(mut f) => {
-            let ids = Reader::read(&mut f, graph, hashes)?;
-            Ok(Writer::from_opened(ids, f))
+            let (ids, valid_len) = Reader::read(&mut f, graph, hashes)?;
+            if f.metadata()?.len() > valid_len {
+                f.set_len(valid_len)?;
+            }
+            let mut w = Writer::from_opened(ids, f);
+            if valid_len == 0 {
+                w.write_signature()?;
+            }
+            Ok(w)
         }
         Err(err) if err.kind() == std::io::ErrorKind::NotFound => {
             let w = Writer::create(path)?;
